@@ -74,11 +74,30 @@ func c15Items(raw json.RawMessage) ([]c15Item, bool) {
 
 // what left the action
 type c15Obs struct {
-	ID     int    `json:"id"`
-	HasLog bool   `json:"has_log"`
-	IsStr  bool   `json:"is_str"`
-	Log    string `json:"log"`
-	Doc    string `json:"doc"`
+	ID     int             `json:"id"`
+	HasLog bool            `json:"has_log"`
+	IsStr  bool            `json:"is_str"`
+	Log    string          `json:"log"`
+	Doc    string          `json:"doc"`
+	ev     *pipeline.Event // the output EVENT itself: its text is looked at once more at the end of the case
+}
+
+// an output that keeps events for a while (every batching output) must still see the text the event had when it was
+// flushed: the joined text is a value fixed at the flush, not a view of the plugin's run buffer
+func c15LateChange(outs []c15Obs) (int, string) {
+	for i, o := range outs {
+		if !o.HasLog || o.ev == nil {
+			continue
+		}
+		if n := o.ev.Root.Dig("log"); n == nil || n.AsString() != o.Log {
+			late := "<no field>"
+			if n != nil {
+				late = n.AsString()
+			}
+			return i, late
+		}
+	}
+	return -1, ""
 }
 
 type c15Ctl struct {
@@ -87,7 +106,7 @@ type c15Ctl struct {
 }
 
 func (c *c15Ctl) record(e *pipeline.Event) {
-	o := c15Obs{ID: c.ids[e], Doc: e.Root.EncodeToString()}
+	o := c15Obs{ID: c.ids[e], Doc: e.Root.EncodeToString(), ev: e}
 	if n := e.Root.Dig("log"); n != nil {
 		o.HasLog = true
 		o.IsStr = n.IsString()
@@ -106,6 +125,18 @@ var c15Lines = map[string][2]string{ // template -> {start line, continue line}
 	"go_data_race": {"WARNING: DATA RACE %d", "================== %d"},
 }
 
+// start lines that may be indented: cs_exception "^\s*(?i)Unhandled exception"; go_panic "(http: panic serving)" anywhere.
+// go_data_race (prefix "WARNING: DATA RACE") has none.
+var c15IndentedStart = map[string]string{
+	"cs_exception": "Unhandled exception. %d",
+	"go_panic":     "http: panic serving %d",
+}
+
+var c15ContinueAtCol0 = map[string]string{
+	"go_panic":     "main.go:1%d +0x1d",
+	"cs_exception": "at Foo.Bar %d",
+}
+
 func c15Pad(s string) string {
 	if len(s) > c15W-1 {
 		panic("c15: line too long")
@@ -119,8 +150,16 @@ func c15DocT(templates []string) func(cl string, id int) (string, string) {
 		switch cl {
 		case "S1", "S2":
 			val = c15Pad(fmt.Sprintf(c15Lines[templates[int(cl[1]-'1')]][0], id))
+		case "S1i", "S2i":
+			// a start line with leading white space, where the template's start pattern allows it
+			ws := []string{" ", "\t", "  \t"}[id%3]
+			val = c15Pad(ws + fmt.Sprintf(c15IndentedStart[templates[int(cl[1]-'1')]], id))
 		case "C1", "C2":
-			val = c15Pad(fmt.Sprintf(c15Lines[templates[int(cl[1]-'1')]][1], id))
+			line := c15Lines[templates[int(cl[1]-'1')]][1]
+			if id%2 == 0 && c15ContinueAtCol0[templates[int(cl[1]-'1')]] != "" {
+				line = c15ContinueAtCol0[templates[int(cl[1]-'1')]] // the continue patterns do not need the indentation
+			}
+			val = c15Pad(fmt.Sprintf(line, id))
 		case "O":
 			val = c15Pad(fmt.Sprintf("hello world %d", id))
 		case "NS":
@@ -252,7 +291,7 @@ func c15RunJoinCase(c *c15Case, salt int, newPlugin func(salt int) (pipeline.Act
 	ctl := &c15Ctl{ids: map[*pipeline.Event]int{}}
 	params := test.NewEmptyActionPluginParams()
 	params.Controller = ctl
-	params.PipelineSettings = &pipeline.Settings{AvgEventSize: 64}
+	params.PipelineSettings = &pipeline.Settings{AvgEventSize: 4096} // the run buffer never has to grow
 	plugin.Start(config, params)
 
 	vals := make([]string, n)
@@ -319,6 +358,9 @@ func c15RunJoinCase(c *c15Case, salt int, newPlugin func(salt int) (pipeline.Act
 			ctl.record(events[k])
 		}
 	}
+	if i, late := c15LateChange(ctl.outs); i >= 0 {
+		return &c15Mismatch{Kind: "flushed_text_changed", Plugin: name, Case: c, Limit: limit, Got: ctl.outs, At: i, Panic: "text at the end of the case: " + late}, st
+	}
 	ok := c15Match(ctl.outs, exp, vals, docs, limit)
 	if !ok && hasAlt {
 		ok = c15Match(ctl.outs, alt, vals, docs, limit)
@@ -367,10 +409,13 @@ func TestVerifC15JoinTemplate(t *testing.T) {
 			defer wg.Done()
 			for i := wi; i < len(cases); i += nw {
 				c := cases[i]
-				if c.Pre != "none" || len(c.Neg) != c.NT {
-					panic("c15: the join_template replay takes cases of chain none only")
+				if (c.Pre != "none" && c.Pre != "ind") || len(c.Neg) != c.NT {
+					panic("c15: the join_template replay takes cases of chains none / ind only")
 				}
 				templates := c15Templates(c.Neg, i)
+				if c.NT == 2 && !c.Neg[0] && !c.Neg[1] && i%3 == 0 {
+					templates = append(templates, "go_data_race") // all templates together
+				}
 				mk := func(salt int) (pipeline.ActionPlugin, pipeline.AnyConfig, string, int) {
 					limit := c15Limit(c.M, salt)
 					conf := &Config{Field: "log", MaxEventSize: limit}
@@ -448,7 +493,7 @@ func c15RunPair(pr *c15Pair, salt int, newConfig func(salt int) (pipeline.AnyCon
 		ctls[s] = &c15Ctl{ids: map[*pipeline.Event]int{}}
 		params := test.NewEmptyActionPluginParams()
 		params.Controller = ctls[s]
-		params.PipelineSettings = &pipeline.Settings{AvgEventSize: 64}
+		params.PipelineSettings = &pipeline.Settings{AvgEventSize: 4096} // the run buffer never has to grow
 		plugins[s] = newPlugin()
 		plugins[s].Start(config, params)
 		n := len(cases[s].Seq)
@@ -505,6 +550,9 @@ func c15RunPair(pr *c15Pair, salt int, newConfig func(salt int) (pipeline.AnyCon
 		timeout(s)
 	}
 	for s := 0; s < 2; s++ {
+		if i, late := c15LateChange(ctls[s].outs); i >= 0 {
+			return &c15PairMismatch{Kind: "flushed_text_changed", Plugin: name, Shared: true, Pair: pr, Stream: s, Got: got(), Panic: fmt.Sprintf("output %d at the end: %s", i, late)}
+		}
 		exp, _ := c15Items(cases[s].Exp)
 		alt, hasAlt := c15Items(cases[s].Alt)
 		ok := c15Match(ctls[s].outs, exp, vals[s], docs[s], limit)
